@@ -130,7 +130,18 @@ class C05(Property):
             rng.shuffle(events)
             for e in events:
                 e.pop('atts', None)
-            yield {'kind': 'stream', 'et': et, 'events': events}
+            case = {'kind': 'stream', 'et': et, 'events': events}
+            # an optional hashed property that arrives with an upgrade of the event type in mid stream: the events in front
+            # of the second ontology element do not have it
+            if i % 2 == 0 and len(events) >= 2 and not any(p['name'] == 'hx' for p in et['props']):
+                et = dict(et, props=et['props'] + [{'name': 'hx', 'fam': 'str', 'merge': 'match', 'multi': False, 'optional': True}])
+                k = rng.randint(1, len(events) - 1)
+                events = [json.loads(json.dumps(e)) for e in events]
+                for e in events[k:]:
+                    if rng.random() < 0.7:
+                        e['props'].append(['hx', [rng.choice(['x1', 'x2'])]])
+                case = {'kind': 'stream', 'et': et, 'events': events, 'upgrade': {'prop': 'hx', 'at': k}}
+            yield case
 
     # ---- implementation ------------------------------------------------------------------
     def run_stream(self, o, data, k):
@@ -167,7 +178,24 @@ class C05(Property):
                     outs.append({'err': 'foreign:' + type(ex).__name__})
             return {'outs': outs}
         events = [gen.build_event(e, 'plain') for e in case['events']]
-        data = edxml.EventCollection(events, o).to_edxml()
+        if case.get('upgrade'):
+            # ontology v1 (without the property), the first events, ontology v2 (the full event type), the other events
+            up = case['upgrade']
+            et1 = dict(case['et'], props=[p for p in case['et']['props'] if p['name'] != up['prop']])
+            o1, _t1 = c04.build_ontology(et1)
+            o.get_event_type('t').set_version(2)
+            buf = io.BytesIO()
+            w = edxml.EDXMLWriter(buf, validate=True)
+            w.add_ontology(o1)
+            for e in events[:up['at']]:
+                w.add_event(e)
+            w.add_ontology(o)
+            for e in events[up['at']:]:
+                w.add_event(e)
+            w.close()
+            data = buf.getvalue()
+        else:
+            data = edxml.EventCollection(events, o).to_edxml()
         res = {}
         for k in [None] + list(range(1, len(events) + 2)):
             try:
